@@ -18,7 +18,7 @@ theorem invOp_correct (op : CmpOp) (a b : Int) : cmp (invOp op) b a = cmp op a b
     by_cases h : a = b
     · subst h; rfl
     · have h' : b ≠ a := fun e => h e.symm
-      simp [h, h']
+      rw [beq_eq_false_iff_ne.mpr h, beq_eq_false_iff_ne.mpr h']
   cases op
   · exact hbeq
   · show (!(b == a)) = (!(a == b)); rw [hbeq]
@@ -236,5 +236,267 @@ theorem zeroCompared_some {op : CmpOp} {a b x : Expr} (h : zeroCompared op a b =
         · cases h
       · cases h
   · cases h
+
+/-! ## the paths of `emitCondition` -/
+
+theorem evalB_cmp (ρ : Env) (β : List Bool) (op : CmpOp) (a b : Expr) :
+    evalB ρ β (.cmp op a b) =
+      ((eval ρ a >>= fun va => eval ρ b >>= fun vb => (pure (va, vb) : Except Fault (Val × Val))) >>=
+        fun p => boolOfVal (cmpVal op p.1 p.2)) := by
+  simp only [evalB, eval_cmp]
+  cases eval ρ a with
+  | error f => rfl
+  | ok va =>
+    cases eval ρ b with
+    | error f => rfl
+    | ok vb => rfl
+
+theorem zero_test (k : Kind) (w : BitVec 64) (z : Int) (h : val k w = z) :
+    (w == 0#64) = (z == 0) ∧ (w == 0#64) = ((0 : Int) == z) := by
+  have hi := val_eq_zero_iff k w
+  rw [h] at hi
+  constructor
+  · rw [Bool.eq_iff_iff]; simp only [beq_iff_eq]; exact hi.symm
+  · rw [Bool.eq_iff_iff]; simp only [beq_iff_eq]; exact ⟨fun h' => (hi.mpr h').symm, fun h' => hi.mp h'.symm⟩
+
+/-- test of the zero fast path against the specification's comparison -/
+theorem zero_cond (op : CmpOp) (hop : op = .eq ∨ op = .ne) (k : Kind) (w junk : BitVec 64) (z : Int)
+    (h : val k w = z) :
+    vmIfInt (if op = .ne then .notZero else .zero) w junk = cmp op z 0 ∧
+    vmIfInt (if op = .ne then .notZero else .zero) w junk = cmp op 0 z := by
+  obtain ⟨h1, h2⟩ := zero_test k w z h
+  rcases hop with rfl | rfl
+  · exact ⟨h1, h2⟩
+  · constructor
+    · show (!(w == 0#64)) = (!(z == 0)); rw [h1]
+    · show (!(w == 0#64)) = (!((0 : Int) == z)); rw [h2]
+
+theorem runCond_eq {tbl : List (BitVec 64)} {slen : Nat → Nat} {o : CondOut} {rf rf' : RegFile}
+    (h : runS tbl o.code (rf, false) = .ok (rf', false)) :
+    runCond tbl slen o rf = .ok (rf', testVal slen rf' o.test) := by
+  unfold runCond; rw [h]
+
+theorem compileCond_post (H : OpcodeFacts) (vr vb vs : Nat → Reg) (ρ : Env) (β : List Bool) (σ : List Nat)
+    (slen : Nat → Nat) (c : CondE) (st : St) (rf : RegFile) (nv : Nat)
+    (ht : CondTyped c) (hv : CondVarsIn vr vb vs ρ β σ slen rf nv c) (hn : CondNonNeg ρ c)
+    (hnv : nv ≤ st.numRegs) :
+    st.numRegs ≤ (compileCond vr vb vs c st).st.numRegs ∧
+    st.consts <+: (compileCond vr vb vs c st).st.consts ∧
+    ∀ tbl, (compileCond vr vb vs c st).st.consts <+: tbl →
+      CondPost tbl slen (compileCond vr vb vs c st) rf (evalCond ρ β σ c) st.numRegs := by
+  cases c with
+  | lit b =>
+    refine ⟨Nat.le_succ _, List.prefix_refl _, ?_⟩
+    intro tbl _
+    refine ⟨setReg rf (st.numRegs + 1) (srcVal rf (.imm (if b then 1 else 0))), ?_, ?_⟩
+    · have ht : testVal slen (setReg rf (st.numRegs + 1) (srcVal rf (.imm (if b then 1 else 0))))
+          (.int (st.numRegs + 1) .notZero (.reg 0)) = b := by
+        show (setReg rf (st.numRegs + 1) _ (st.numRegs + 1) != 0#64) = b
+        rw [setReg_same]
+        show (BitVec.signExtend 64 (if b then (1 : BitVec 8) else 0) != 0#64) = b
+        cases b <;> decide
+      rw [runCond_eq (rf' := setReg rf (st.numRegs + 1) (srcVal rf (.imm (if b then 1 else 0))))
+        (by show runS tbl [.move _ _] (rf, false) = _; rw [runS_cons, exec_move]; rfl)]
+      show Except.ok (_, testVal slen _ (.int (st.numRegs + 1) .notZero (.reg 0))) = _
+      rw [ht]
+    · intro (r : Nat) hr
+      exact setReg_other rf _ (by omega)
+  | cmp op a b =>
+    obtain ⟨k, hka, hkb, _⟩ := typeOf_cmp ht
+    have hkind := kindOf_of_typeOf a k hka
+    cases hz : zeroCompared op a b with
+    | none =>
+      simp only [compileCond, hz]
+      obtain ⟨o1, o2, o3⟩ := operands2_post H vr ρ a b k k hka hkb st rf nv hv.1 hv.2 hn.1 hn.2 hnv
+      refine ⟨o1, o2, ?_⟩
+      intro tbl hp
+      show CondPost tbl slen _ rf (evalB ρ β (.cmp op a b)) _
+      rw [evalB_cmp]
+      refine condPost_of_post (o3 tbl hp) ?_
+      intro p rf2 _ ⟨h1, h2, h3⟩
+      obtain ⟨va, vb'⟩ := p
+      obtain ⟨x, rfl, hcx, hvx⟩ := holds_int h1
+      obtain ⟨y, rfl, hcy, hvy⟩ := holds_int h2
+      refine ⟨?_, h3⟩
+      have hc : cmpVal op (.int k x) (.int k y) = .ok (.bool (cmp op x y)) := by simp [cmpVal]
+      show boolOfVal (cmpVal op (.int k x) (.int k y)) = _
+      rw [hc, hkind]
+      show Except.ok (cmp op x y) = Except.ok (vmCmp op k _ _)
+      rw [H.cmp, hvx, hvy]
+    | some x =>
+      simp only [compileCond, hz]
+      obtain ⟨hop, hcase⟩ := zeroCompared_some hz
+      rcases hcase with ⟨k', hb, hx⟩ | ⟨k', ha, hx⟩
+      · -- `a op 0`
+        subst hb hx
+        obtain ⟨_, hk'⟩ := typeOf_lit hkb
+        cases hk'
+        obtain ⟨⟨o1, o2, o3, o4⟩, o5⟩ := operand_correct H vr ρ x _ false st rf nv hka hv.1 hn.1 hnv
+        generalize operand vr x false (emitInto vr x) st = o at *
+        refine ⟨o1, o2, ?_⟩
+        intro tbl hp
+        have he : evalCond ρ β σ (.cmp op x (.lit k 0)) =
+            (eval ρ x >>= fun va => boolOfVal (cmpVal op va (.int k 0))) := by
+          show evalB ρ β (.cmp op x (.lit k 0)) = _
+          rw [evalB_cmp]
+          cases eval ρ x <;> rfl
+        rw [he]
+        refine condPost_of_post (o4 tbl hp) ?_
+        intro v rf' _ ⟨hh, hf⟩
+        obtain ⟨r, hr⟩ := o5 rfl
+        rw [hr] at hh ⊢
+        obtain ⟨z, rfl, hc, hvz⟩ := holds_int hh
+        refine ⟨?_, hf⟩
+        have hcv : cmpVal op (.int k z) (.int k 0) = .ok (.bool (cmp op z 0)) := by simp [cmpVal]
+        rw [hcv]
+        show Except.ok (cmp op z 0) = Except.ok (vmIfInt _ (rf' r) (rf' 0))
+        rw [(zero_cond op hop k (rf' r) (rf' 0) z hvz).1]
+      · -- `0 op b`
+        subst ha hx
+        obtain ⟨_, hk'⟩ := typeOf_lit hka
+        cases hk'
+        obtain ⟨⟨o1, o2, o3, o4⟩, o5⟩ := operand_correct H vr ρ x _ false st rf nv hkb hv.2 hn.2 hnv
+        generalize operand vr x false (emitInto vr x) st = o at *
+        refine ⟨o1, o2, ?_⟩
+        intro tbl hp
+        have he : evalCond ρ β σ (.cmp op (.lit k 0) x) =
+            (eval ρ x >>= fun vb => boolOfVal (cmpVal op (.int k 0) vb)) := by
+          show evalB ρ β (.cmp op (.lit k 0) x) = _
+          rw [evalB_cmp]
+          show ((eval ρ x >>= fun vb => (pure (Val.int k 0, vb) : Except Fault (Val × Val))) >>= _) = _
+          cases eval ρ x <;> rfl
+        rw [he]
+        refine condPost_of_post (o4 tbl hp) ?_
+        intro v rf' _ ⟨hh, hf⟩
+        obtain ⟨r, hr⟩ := o5 rfl
+        rw [hr] at hh ⊢
+        obtain ⟨z, rfl, hc, hvz⟩ := holds_int hh
+        refine ⟨?_, hf⟩
+        have hcv : cmpVal op (.int k 0) (.int k z) = .ok (.bool (cmp op 0 z)) := by simp [cmpVal]
+        rw [hcv]
+        show Except.ok (cmp op 0 z) = Except.ok (vmIfInt _ (rf' r) (rf' 0))
+        rw [(zero_cond op hop k (rf' r) (rf' 0) z hvz).2]
+  | lenL op s e =>
+    simp only [compileCond]
+    obtain ⟨⟨o1, o2, o3, o4⟩, _⟩ := operand_correct H vr ρ e _ true st rf nv ht hv.1 hn hnv
+    generalize operand vr e true (emitInto vr e) st = o at *
+    refine ⟨o1, o2, ?_⟩
+    intro tbl hp
+    have he : evalCond ρ β σ (.lenL op s e) = (eval ρ e >>= fun v =>
+        match v with
+        | .int _ z => .ok (cmp op (slen (vs s) : Int) z)
+        | _ => .error .other) := by
+      simp only [evalCond, hv.2]
+      cases eval ρ e with
+      | error f => rfl
+      | ok v => cases v <;> rfl
+    rw [he]
+    refine condPost_of_post (o4 tbl hp) ?_
+    intro v rf' _ ⟨hh, hf⟩
+    obtain ⟨z, rfl, hc, hvz⟩ := holds_int hh
+    refine ⟨?_, hf⟩
+    show Except.ok (cmp op (slen (vs s) : Int) z) = Except.ok (vmIfLen _ _ (srcVal rf' o.src).toInt)
+    rw [lenCond_spec, cmpOfSrc_srcCmpOf, show (srcVal rf' o.src).toInt = z from hvz]
+  | lenR op e s =>
+    simp only [compileCond]
+    obtain ⟨⟨o1, o2, o3, o4⟩, _⟩ := operand_correct H vr ρ e _ true st rf nv ht hv.1 hn hnv
+    generalize operand vr e true (emitInto vr e) st = o at *
+    refine ⟨o1, o2, ?_⟩
+    intro tbl hp
+    have he : evalCond ρ β σ (.lenR op e s) = (eval ρ e >>= fun v =>
+        match v with
+        | .int _ z => .ok (cmp op z (slen (vs s) : Int))
+        | _ => .error .other) := by
+      simp only [evalCond, hv.2]
+      cases eval ρ e with
+      | error f => rfl
+      | ok v => cases v <;> rfl
+    rw [he]
+    refine condPost_of_post (o4 tbl hp) ?_
+    intro v rf' _ ⟨hh, hf⟩
+    obtain ⟨z, rfl, hc, hvz⟩ := holds_int hh
+    refine ⟨?_, hf⟩
+    show Except.ok (cmp op z (slen (vs s) : Int)) = Except.ok (vmIfLen _ _ (srcVal rf' o.src).toInt)
+    rw [lenCond_spec, show (srcVal rf' o.src).toInt = z from hvz]
+    show _ = Except.ok (cmp (invOp op) _ _)
+    rw [invOp_correct]
+  | not v =>
+    simp only [compileCond]
+    obtain ⟨o1, o2, o3⟩ := bval_post H vr vb ρ β v st rf nv ht hv hn hnv
+    refine ⟨o1, o2, ?_⟩
+    intro tbl hp
+    have he : evalCond ρ β σ (.not v) = (evalB ρ β v >>= fun b => .ok (!b)) := by
+      simp only [evalCond]
+      cases evalB ρ β v <;> rfl
+    rw [he]
+    refine condPost_of_post (o3 tbl hp) ?_
+    intro b rf' _ ⟨hw, hf⟩
+    refine ⟨?_, hf⟩
+    show Except.ok (!b) = Except.ok (rf' _ == 0#64)
+    rw [hw]
+    cases b <;> rfl
+  | val v =>
+    simp only [compileCond]
+    obtain ⟨o1, o2, o3⟩ := bval_post H vr vb ρ β v st rf nv ht hv hn hnv
+    refine ⟨o1, o2, ?_⟩
+    intro tbl hp
+    have he : evalCond ρ β σ (.val v) = (evalB ρ β v >>= fun b => .ok b) := by
+      simp only [evalCond]
+      cases evalB ρ β v <;> rfl
+    rw [he]
+    refine condPost_of_post (o3 tbl hp) ?_
+    intro b rf' _ ⟨hw, hf⟩
+    refine ⟨?_, hf⟩
+    show Except.ok b = Except.ok (rf' _ != 0#64)
+    rw [hw]
+    cases b <;> rfl
+
+/-! ## conditions without shifts need no hypothesis on shift counts -/
+
+def noShift : Expr → Bool
+  | .lit _ _ => true
+  | .var _ _ => true
+  | .un _ e => noShift e
+  | .bin _ a b => noShift a && noShift b
+  | .sh _ _ _ => false
+  | .cmp _ a b => noShift a && noShift b
+  | .conv _ e => noShift e
+
+theorem nonNeg_of_noShift (ρ : Env) (e : Expr) (h : noShift e = true) : NonNegShifts ρ e := by
+  induction e with
+  | lit k z => trivial
+  | var k i => trivial
+  | un op e ih => exact ih h
+  | bin op a b iha ihb =>
+    simp only [noShift, Bool.and_eq_true] at h; exact ⟨iha h.1, ihb h.2⟩
+  | sh op a b iha ihb => cases h
+  | cmp op a b iha ihb =>
+    simp only [noShift, Bool.and_eq_true] at h; exact ⟨iha h.1, ihb h.2⟩
+  | conv k e ih => exact ih h
+
+def condNoShift : CondE → Bool
+  | .lit _ => true
+  | .cmp _ a b => noShift a && noShift b
+  | .lenL _ _ e => noShift e
+  | .lenR _ e _ => noShift e
+  | .not (.cmp _ a b) => noShift a && noShift b
+  | .not (.var _) => true
+  | .val (.cmp _ a b) => noShift a && noShift b
+  | .val (.var _) => true
+
+theorem condNonNeg_of_noShift (ρ : Env) (c : CondE) (h : condNoShift c = true) : CondNonNeg ρ c := by
+  cases c with
+  | lit b => trivial
+  | cmp op a b => exact nonNeg_of_noShift ρ (.cmp op a b) h
+  | lenL op s e => exact nonNeg_of_noShift ρ e h
+  | lenR op e s => exact nonNeg_of_noShift ρ e h
+  | not v =>
+    cases v with
+    | cmp op a b => exact nonNeg_of_noShift ρ (.cmp op a b) h
+    | var i => trivial
+  | val v =>
+    cases v with
+    | cmp op a b => exact nonNeg_of_noShift ρ (.cmp op a b) h
+    | var i => trivial
 
 end ScriggoV.Compile
